@@ -38,6 +38,8 @@ func init() {
 		"strings.ReplaceAll":  func(m *Machine, a []Value, _ *frame) Value { return m.strReplaceAll(a[0].(StrV), a[1].(StrV), a[2].(StrV)) },
 		"strings.Contains":    func(m *Machine, a []Value, _ *frame) Value { return m.strContains(a[0].(StrV), a[1].(StrV)) },
 		"strings.IndexByte":   func(m *Machine, a []Value, _ *frame) Value { return m.strIndexByte(a[0].(StrV), a[1].(*Term)) },
+		"internal/bytealg.IndexByteString": func(m *Machine, a []Value, _ *frame) Value { return m.strIndexByte(a[0].(StrV), a[1].(*Term)) },
+		"internal/stringslite.IndexByte":   func(m *Machine, a []Value, _ *frame) Value { return m.strIndexByte(a[0].(StrV), a[1].(*Term)) },
 		"strings.Clone":       func(m *Machine, a []Value, _ *frame) Value { return a[0] },
 		"internal/stringslite.Clone": func(m *Machine, a []Value, _ *frame) Value { return a[0] },
 		"strconv.cloneString": func(m *Machine, a []Value, _ *frame) Value { return a[0] },
@@ -215,6 +217,10 @@ func (m *Machine) classifyIntrinsic(fn *ssa.Function) intrEntry {
 	}
 	if f, ok := syncIntrinsics[name]; ok {
 		return intrEntry{kind: ikTable, f: f, name: name}
+	}
+	if o := fn.Origin(); o != nil && o.String() == "unique.Make" {
+		f := fn
+		return intrEntry{kind: ikTable, name: "unique.Make", f: func(m *Machine, a []Value, _ *frame) Value { return m.uniqueMake(f, a) }}
 	}
 	if fn.Pkg != nil {
 		path := fn.Pkg.Pkg.Path()
